@@ -70,7 +70,7 @@ class TwoParty:
     def actions(self):
         acts = []
         code = self.code_for_b()
-        if self.a.code is not None and code is not None and not self.b.closed:
+        if self.a.code is not None and code is not None and (not self.b.closed or self.cfg.get("code_after_close")):
             if self.cfg.get("b_code", "set") == "set":
                 if not self.b_started:
                     def give():
